@@ -85,7 +85,8 @@ def DebugTransparent (env : Env) : Prop :=
 /-- General form: two states that differ only in logger switches, log, and debug wrappers around what is installed
     produce the same transcript (calls, arguments, results, panics) for every operation list — including lists that
     toggle the switches in the middle — and end in states that again differ only in that way.
-    Hypothesis: fmt returns on every value (`Total`); see `Findings/C19F13.lean` for what happens otherwise. -/
+    Hypotheses (`Total`): fmt returns on every value (otherwise `Findings/C19F13.lean`), and the mocked function is not
+    one the console logger calls itself (otherwise `Findings/C19F14.lean`). -/
 theorem debug_transparent_sim (env : Env) (tot : Total env) (a b : St) (h : Sim a b) (ops : List Op) :
     obs env a ops = obs env b ops ∧ Sim (run env a ops).2 (run env b ops).2 :=
   run_sim env tot ops a b h
@@ -111,7 +112,7 @@ def exOps : List Op :=
    .ret [intVal 9],
    .call [.atom { kind := .str, isNil := false, tok := "s", n := 0 }, .pack []]]
 
-example : Total exEnv := fun _ => rfl
+example : Total exEnv := ⟨fun _ => rfl, rfl⟩
 /-- in configuration debug the callback IS reached through the wrapper and two lines ARE logged, in configuration off
     neither happens — and the transcripts agree (by the theorem, and here by evaluation) -/
 example : (run exEnv (initSt .debug) exOps).2.wraps = [true] ∧ (run exEnv (initSt .debug) exOps).2.log.length = 2 ∧
